@@ -593,13 +593,14 @@ func CheckDuplicateProofs(proofs Proofs) bool {
 }
 
 func CheckDuplicateBlindedMessages(bms BlindedMessages) bool {
-	bmMap := make(map[BlindedMessage]bool)
+	// two outputs are duplicates if they carry the same B_, whatever their other fields say
+	bmMap := make(map[string]bool)
 
 	for _, bm := range bms {
-		if bmMap[bm] {
+		if bmMap[bm.B_] {
 			return true
 		} else {
-			bmMap[bm] = true
+			bmMap[bm.B_] = true
 		}
 	}
 
